@@ -30,12 +30,22 @@ def run(ctx):
     # library half: File.Apply on a file nothing matches returns the very bytes it was given
     import fam_emit as fe
     ust = fe.unmatched_identity(ctx, known, quick)
+    # ... also for syntactically rich files and every pattern of the near-miss / interaction corpora that has
+    # no instance in them (decided by the P-layer of Pattern.tla in TLC)
+    import fam_rewrite as frw
+    vecs = frw.text_vectors(ctx, "corpus/nearmiss/vectors.json", "C06") + frw.text_vectors(ctx, "corpus/inter/vectors.json", "C06")
+    vecs = [v for v in vecs if not v.get("header")]
+    rich = frw.on_files(vecs if not quick else frw.sample(ctx, vecs, 60),
+                        ["corpus/rich/r1.go", "corpus/rich/r2.go", "corpus/inter/inter.go", "corpus/nearmiss/nm_stmt.go"], "no-match identity")
+    nst = frw.nomatch_identity(ctx, frw.replay_and_judge(ctx, "nomatch", rich, None, shards=16))
+    if nst["unmatched"] == 0:
+        raise fr.Infra("vacuous: no unmatched (pattern, file) pair")
     mc = [r for r in ctx.tlc_runs if r["name"] == "mc-pipeline"][0]
     r0 = results[0]
     cov = dict(states=mc["distinct"], transitions=mc["states"], traces_validated_against_impl=st["runs"],
                samples=[dict(id=r0[0]["id"], scenario=r0[0]["meta"]["sc"], observed=r0[1], verdict=r0[2]["viol"])],
                evaluations=st["runs"], distinct_nontrivial=len({json_key(r[0]["meta"]["sc"]) for r in results}),
-               model_drift_runs=st["drift"], library_unmatched_cases=ust["cases"], trace_rejected_runs=st["stuck"], exhaustive=False,
+               model_drift_runs=st["drift"], library_unmatched_cases=ust["cases"], library_pattern_file_pairs=nst["cases"], library_pairs_without_instance=nst["unmatched"], trace_rejected_runs=st["stuck"], exhaustive=False,
                rule="design: all runs of <=%d files x 6 kinds x 32 flag combinations x fault points (TLC, exhaustive); replay: scenarios with at least one unmatched file (7 layouts incl. CRLF, non-gofmt, odd comments, build tags, near-misses), seeded sample in quick; distinct = distinct (kinds, flags) scenarios" % (2 if quick else 3))
     return ctx.finish("model_checking", cov, ASSUME)
 
